@@ -63,10 +63,11 @@ def header_pair(prog, rep, mod, up, pk):
         pe, _ = ev.ret_expr(pack_id)
         zeros = _range_facts_deep(ev, pack_id, {0: f})
         ev.zero = zeros
-        p = ev.apply_zero(ev.eval(pe, {0: f}, ev.ir(pack_id)))
+        f = ev.apply_zero(f)       # in-range fields: the bits pack asserts to be zero are zero
+        p = ev.eval(pe, {0: f}, ev.ir(pack_id))
         ue, _ = ev.ret_expr(unpack_id)
-        u = ev.apply_zero(ev.eval(ue, {0: p}, ev.ir(unpack_id)))
-        ff = flatten(ev.apply_zero(f))
+        u = ev.eval(ue, {0: p}, ev.ir(unpack_id))
+        ff = flatten(f)
         uf = flatten(u)
         bad = []
         for key, bit in sorted(ff.items()):
@@ -294,9 +295,11 @@ def _first_variant(body, bb, adt_path):
         if t["k"] in ("goto", "call", "drop", "assert") and t.get("t") is not None:
             work.append(t["t"])
         elif t["k"] == "switch":
-            # position()/min() style code inside the Close arm: follow all
-            for s in body.succ[b]:
-                work.append(s)
+            # bool tests inside an arm (e.g. the Close reason handling) are followed; another
+            # dispatch on a byte value is a different table: stop there
+            if t.get("dty") != "u8":
+                for s in body.succ[b]:
+                    work.append(s)
     return None
 
 
